@@ -160,7 +160,7 @@ def install_seams():
         return orig_pi(self, *a, **kw)
     lark.Lark.parse_interactive = parse_interactive
 
-    def wrap(cls, name, before=None, after=None, exc=None, toplevel=False):
+    def wrap(cls, name, before=None, after=None, exc=None, toplevel=False, after_on_exc=True):
         orig = getattr(cls, name)
         key = "_depth_%s_%s" % (cls.__name__, name)
 
@@ -174,7 +174,7 @@ def install_seams():
                 r = orig(self, *a, **kw)
             except BaseException:
                 setattr(_tls, key, depth)
-                if (exc or after) and top:
+                if (exc or (after and after_on_exc)) and top:
                     fire(exc or after)
                 raise
             setattr(_tls, key, depth)
@@ -186,7 +186,7 @@ def install_seams():
         setattr(cls, name, wrapper)
 
     wrap(Parser, "parse", before="parse_entry", exc="parse_exc")
-    wrap(Parser, "load_includes", after="includes_exit", toplevel=True)
+    wrap(Parser, "load_includes", after="includes_exit", toplevel=True, after_on_exc=False)
     wrap(Parser, "open_file", before="open_file_entry")
     import posixpath
     orig_abspath = posixpath.abspath
@@ -222,6 +222,8 @@ def model_pcs(desc, doctable):
     k = desc["kind"]
     if k == "loads":
         a = doctable[desc["doc"] - 1]
+        if a.get("nest") in ("missing", "self"):
+            return ["incl", "iresolve", "iread", "ret"]
         last = a["fail"] if a["fail"] else a["ntok"]
         pcs = ["incl"] + (["iresolve", "iread"] if a.get("inc") else []) + ["clear"]
         pcs += ["lex%d" % i for i in range(1, last + 1)]
@@ -484,9 +486,22 @@ class ConcreteDoc:
         self.files = {}                     # relative path -> content
         folder = "dir%dv%d" % (attrs.get("dir", 0), variant)
         self.cwd_relative = bool(inc) and attrs.get("dir", 0) == 0
+        nest = attrs.get("nest", "none")
+        self.parses = not fail and nest not in ("missing", "self")
         if inc:
             self.inc_name = "part%d.inc" % inc
-            self.files[os.path.join(folder, self.inc_name)] = "\n".join(groups[1])
+            body = "\n".join(groups[1])
+            if nest == "missing":          # the included file includes a file that does not exist
+                body += '\n  INCLUDE "nosuch%d.inc"' % inc
+            elif nest == "self":           # the included file includes itself: nesting limit
+                body += '\n  INCLUDE "%s"' % self.inc_name
+            elif nest == "chain":          # five include files, the last one holds the LAYER
+                for lvl in range(1, 5):
+                    nm = self.inc_name if lvl == 1 else "part%d_%d.inc" % (inc, lvl)
+                    self.files[os.path.join(folder, nm)] = '  INCLUDE "part%d_%d.inc"' % (inc, lvl + 1)
+                self.files[os.path.join(folder, "part%d_5.inc" % inc)] = body
+            if nest != "chain":
+                self.files[os.path.join(folder, self.inc_name)] = body
             written = self.inc_name
             if self.cwd_relative:
                 # text without a file name: the include is written relative to the working directory
@@ -507,11 +522,15 @@ class ConcreteDoc:
     @property
     def d(self):
         """loaded on first use through the public API (fresh workers)"""
-        if self._d is None and not self.attrs["fail"]:
+        if self._d is None and self.parses:
             if self.attrs.get("inc") and not self.cwd_relative:
                 self._d = mappyfile.open(self.path, include_comments=True)
             else:
                 self._d = mappyfile.loads(self.text, include_comments=True)
+            if not self.attrs.get("typed", True):
+                # a root built by hand: no __type__ (nor any other hidden key) on the root
+                for k in [k for k, _ in items_of(self._d) if isinstance(k, str) and k.startswith("__")]:
+                    del self._d[k]
         return self._d
 
     def reload(self):
@@ -583,7 +602,8 @@ def public_call(desc, cd, private_copy=False):
     if k == "dumps":
         return (lambda: mappyfile.dumps(cd.d)), [cd.d]
     if k == "validate":
-        return (lambda: mappyfile.validate(cd.d, version=VERSIONS[desc["ver"]])), [cd.d]
+        ver = desc.get("cver", VERSIONS[desc["ver"]])
+        return (lambda: mappyfile.validate(cd.d, version=ver)), [cd.d]
     a = find_args(cd, desc)
     if private_copy:
         a = (copy.deepcopy(a[0]),) + a[1:]
@@ -595,6 +615,21 @@ def public_call(desc, cd, private_copy=False):
         finally:
             fire("query_exit")
     return q, [a[0]]
+
+
+_cold = [0]
+
+
+def cold_versions(script):
+    """the same calls with a version number nobody has used in this process yet: 7.6 and 8.0 are
+    replaced by a number of the same class (no keyword of the generated documents has a bound
+    between them), so every cache keyed by the version starts cold.  Equal abstract versions get equal
+    concrete ones."""
+    _cold[0] += 1
+    n = _cold[0]
+    spell = {76: round(7.6 - n * 1e-5, 5), 80: round(8.0 + n * 1e-5, 5)}
+    return [[dict(c, cver=spell[c["ver"]]) if c["kind"] == "validate" and c["ver"] in spell else c for c in calls]
+            for calls in script]
 
 
 def mutating_query(desc):
@@ -611,6 +646,8 @@ def abstract_result(desc, cd, out, docs_by_comment):
         if out[0] == "exc":
             if out[1] in ("FileNotFoundError", "OSError", "IOError", "NotADirectoryError"):
                 return {"k": "ioerror"}
+            if out[1] == "ValueError":
+                return {"k": "toodeep"}
             return {"k": "error"} if out[1] in LARK_ERRORS else {"k": "exception:" + out[1]}
         d = out[1]
         found = []
@@ -695,7 +732,7 @@ class Recorder:
         self.records = []
         self.cases = {}
 
-    def call(self, kind, fnname, docname, fn, args, case=None):
+    def call(self, kind, fnname, docname, fn, args, case=None, cls=""):
         """run fn(); args = the objects whose deep snapshot must not change"""
         pre = [snap(a) for a in args]
         out = outcome(fn)
@@ -710,7 +747,7 @@ class Recorder:
                     break
         self.tid += 1
         self.records.append({"tid": self.tid, "call": kind, "fn": fnname, "doc": docname, "pre": dp, "post": dq,
-                             "diff": diff, "outcome": out[0] if out[0] == "ok" else out[1]})
+                             "diff": diff, "outcome": out[0] if out[0] == "ok" else out[1], "cls": cls})
         if diff and case is not None:
             self.cases[self.tid] = case
         return out
@@ -765,6 +802,7 @@ def purity_doc(rec, name, text=None, fn=None, rng=None, light=False):
     rec.call("dumps_sep", "dumps", name, lambda: mappyfile.dumps(dc, separate_complex_types=True), [dc])
     dv = copy.deepcopy(d)
     rec.call("validate_addc", "Validator.validate", name, lambda: Validator().validate(dv, add_comments=True), [dv])
+    untyped_root_probes(rec, name, d, src, rng)
     # query helpers, Mapfile-dict items and plain-dict items
     lists = list(object_lists(d))
     rng.shuffle(lists)
@@ -796,6 +834,42 @@ def purity_doc(rec, name, text=None, fn=None, rng=None, light=False):
         rec.call("findkey", "findkey", name, lambda: mappyfile.findkey(d, *keys), [d, keys],
                  dict(src, call="findkey(d, *%r)" % keys))
     return True
+
+
+def strip_root(d):
+    for k in [k for k, _ in items_of(d) if isinstance(k, str) and k.startswith("__")]:
+        del d[k]
+    return d
+
+
+def untyped_root_probes(rec, name, d, src, rng):
+    """root dictionaries as a caller may build them by hand: without __type__ (nor any other hidden
+    key) on the root - as a Mapfile dict, as a plain dict, and as one element of a list of roots"""
+    if not (isinstance(d, dict) and "__type__" in dict.keys(d)):
+        return
+    cls = "untyped-root"
+    ver = rng.choice([7.6, 8.0])
+    u = strip_root(copy.deepcopy(d))
+    rec.call("validate", "validate", name, lambda: mappyfile.validate(u), [u],
+             dict(src, call="validate(root without __type__)", probe=cls), cls=cls)
+    rec.call("validate", "validate", name, lambda: mappyfile.validate(u, version=ver), [u],
+             dict(src, call="validate(root without __type__, version=%r)" % ver, probe=cls), cls=cls)
+    try:
+        p = strip_root(json.loads(json.dumps(d)))
+    except (TypeError, ValueError):
+        p = None
+    if p is not None:
+        rec.call("validate", "validate", name, lambda: mappyfile.validate(p), [p],
+                 dict(src, call="validate(plain dict root without __type__)", probe=cls), cls=cls + "-plain")
+    roots = [copy.deepcopy(d), strip_root(copy.deepcopy(d))]
+    rec.call("validate", "validate", name, lambda: mappyfile.validate(roots), [roots],
+             dict(src, call="validate([typed root, root without __type__])", probe=cls), cls=cls + "-in-list")
+    u2 = strip_root(copy.deepcopy(d))
+    rec.call("dumps", "dumps", name, lambda: mappyfile.dumps(u2), [u2],
+             dict(src, call="dumps(root without __type__)", probe=cls), cls=cls)
+    u3 = strip_root(copy.deepcopy(d))
+    rec.call("findkey", "findkey", name, lambda: mappyfile.findkey(u3), [u3],
+             dict(src, call="findkey(root without __type__)", probe=cls), cls=cls)
 
 
 def task_purity(job):
@@ -847,6 +921,7 @@ def task_purity_slots(job):
                  dict(src, call="dumps(d, indent=2, quote=\"'\", align_values=True)"))
         rec.call("validate", "validate", name, lambda: mappyfile.validate(d), [d], dict(src, call="validate(d)"))
         if j % 8 == 0:
+            untyped_root_probes(rec, name, d, src, random.Random(j))
             buf = io.StringIO()
             rec.call("dumps", "dump", name, lambda: mappyfile.dump(d, buf), [d], dict(src, call="dump(d, fp)"))
             for ver in (7.6, 8.0):
@@ -960,7 +1035,8 @@ def task_reuse(job):
         if pre[k] != post[k]:
             viol.append(("C12|reuse|args|arg-mutated", "dictionary of %s changed during the re-use replay" % (k,),
                          {"part": "reuse-args", "doc": list(k)}))
-    return {"viol": viol, "n": n, "classes": sorted(classes), "cpu": time.process_time() - c0}
+    refdig = {"/".join(map(str, k)): digest(v[0]) for k, v in refs.memo.items()}
+    return {"viol": viol, "n": n, "classes": sorted(classes), "cpu": time.process_time() - c0, "refdig": refdig}
 
 
 def call_str(desc):
@@ -1109,7 +1185,9 @@ def task_schedules(job):
     cwd0 = os.getcwd()
     for si, sched in enumerate(job["scheds"]):
         pre = {k: digest(snap(docs[k].d)) for k in used if docs[k].d is not None}
-        outs, seen, fail = force_schedule(script, sched, docs, variants)
+        versioned = any(c["kind"] == "validate" and c["ver"] for calls in script for c in calls)
+        run_script = cold_versions(script) if versioned else script
+        outs, seen, fail = force_schedule(run_script, sched, docs, variants)
         n += 1
         cwd1 = os.getcwd()
         if cwd1 != cwd0:
@@ -1119,7 +1197,7 @@ def task_schedules(job):
             if len(failures) > 3:
                 break
             continue
-        case = {"part": "schedule", "script": script, "schedule": sched, "variants": variants, "seed": job["seed"],
+        case = {"part": "schedule", "script": run_script, "schedule": sched, "variants": variants, "seed": job["seed"],
                 "doctable": job["doctable"], "root": job.get("root"),
                 "texts": {"%d/%d" % k: docs[k].text for k in used}}
         hist = job["hists"][si] if job.get("hists") else None
@@ -1139,6 +1217,15 @@ def task_schedules(job):
                                  "thread %d %s under a forced interleaving returned %s, sequentially %s; schedule %s" % (
                                      ti + 1, call_str(desc), json.dumps(ga)[:160], json.dumps(seq[ti][ci][2])[:160],
                                      " ".join("%d:%s" % (e["t"], e["at"]) for e in sched)), case))
+                if "cver" in run_script[ti][ci]:
+                    # the same call once more, sequentially, after the concurrent phase: what the
+                    # interleaving left in any cache keyed by this version
+                    cd = docs[(desc["doc"], variants[ti][ci])]
+                    after = value_of(outcome(public_call(run_script[ti][ci], cd)[0]))
+                    if after != want:
+                        viol.append(("C12|schedule|%s|later-call" % pair_sig(script),
+                                     "%s called sequentially after a forced interleaving returned %s, in a clean state %s" % (
+                                         call_str(desc), json.dumps(after)[:120], json.dumps(want)[:120]), case))
         if hist is not None:
             for h in hist:
                 ti = h["t"] - 1
@@ -1171,10 +1258,12 @@ def task_stress(job):
     for (doc, v), cd in sorted(docs.items()):
         if v >= job.get("variants", 1):
             continue
-        for com in (True, False):
-            menu.append(({"kind": "loads", "doc": doc, "com": com, "ver": 0, "key": "all"}, v))
+        if not cd.attrs.get("hand"):
+            for com in (True, False):
+                menu.append(({"kind": "loads", "doc": doc, "com": com, "ver": 0, "key": "all"}, v))
         if cd.d is not None:
-            menu.append(({"kind": "dumps", "doc": doc, "com": False, "ver": 0, "key": "all"}, v))
+            if cd.attrs.get("typed", True):
+                menu.append(({"kind": "dumps", "doc": doc, "com": False, "ver": 0, "key": "all"}, v))
             for ver in (0, 76, 80):
                 menu.append(({"kind": "validate", "doc": doc, "com": False, "ver": ver, "key": "all"}, v))
             for q in ("find", "findall", "findunique", "findkey"):
@@ -1234,3 +1323,77 @@ def task_stress(job):
         viol.append(("C12|stress|args|arg-mutated", "an argument dictionary changed during the stress run",
                      {"part": "stress-args"}))
     return {"viol": viol[:5], "counts": counts, "stuck": stuck, "cpu": time.process_time() - c0}
+
+
+def task_cold(job):
+    """cold start: this process was forked before anything was validated or printed, so every
+    process-wide cache is empty.  The concurrent phase comes FIRST (staggered threads on the
+    module-level API), then the same calls once more sequentially; the sequential results are also
+    handed back as digests and compared with the references of another process.
+    job: {"seed", "doctable", "root", "focus": 0|1|2}"""
+    c0 = time.process_time()
+    docs, refs = get_env(job)
+
+    def D(kind, doc, ver=0, com=False):
+        return {"kind": kind, "doc": doc, "com": com, "ver": ver, "key": "all"}
+    focus = job["focus"] % 3
+    if focus == 0:
+        menu = [D("validate", 4, 76), D("validate", 5, 76), D("validate", 1, 76), D("dumps", 4), D("validate", 4, 76)]
+    elif focus == 1:
+        menu = [D("validate", 5, 80), D("validate", 4, 80), D("validate", 2, 80), D("dumps", 5), D("validate", 5, 80)]
+    else:
+        menu = [D("dumps", 1), D("dumps", 2), D("dumps", 4), D("dumps", 7), D("validate", 1, 0), D("dumps", 5),
+                D("validate", 14, 76), D("loads", 10, com=True)]
+    v = job.get("variant", 0)
+    menu = [m for m in menu if docs[(m["doc"], v)].parses]
+    for m in menu:                         # the dictionaries the callers hold (parser only)
+        docs[(m["doc"], v)].d
+    pre = {m["doc"]: digest(snap(docs[(m["doc"], v)].d)) for m in menu}
+    nthreads, rounds = job.get("threads", 12), 2
+    outs = {}
+    barrier = threading.Barrier(nthreads)
+
+    def worker(i):
+        barrier.wait()
+        time.sleep(i * 0.003)              # staggered: one thread is still filling a cache when the next arrives
+        for r in range(rounds):
+            mi = (i + r) % len(menu)
+            outs[(i, r)] = (mi, outcome(public_call(menu[mi], docs[(menu[mi]["doc"], v)])[0]))
+    cwd0 = os.getcwd()
+    old = sys.getswitchinterval()
+    sys.setswitchinterval(1e-5)
+    try:
+        ts = [threading.Thread(target=worker, args=(i,), daemon=True) for i in range(nthreads)]
+        for t in ts:
+            t.start()
+        for t in ts:
+            t.join(300)
+        stuck = any(t.is_alive() for t in ts)
+    finally:
+        sys.setswitchinterval(old)
+    viol = []
+    seq, seqdig = [], {}
+    for m in menu:
+        cd = docs[(m["doc"], v)]
+        o = outcome(public_call(m, cd)[0])
+        seq.append((value_of(o), abstract_result(m, cd, o, refs.by_comment)))
+        seqdig["/".join(map(str, refs.key(m, v)))] = digest(seq[-1][0])
+    for (i, r), (mi, o) in sorted(outs.items()):
+        if value_of(o) != seq[mi][0]:
+            m = menu[mi]
+            ga = abstract_result(m, docs[(m["doc"], v)], o, refs.by_comment)
+            kind = "exception" if o[0] == "exc" and seq[mi][0][0] == "ok" else "result"
+            viol.append(("C12|stress|%s|cold-start-%s" % (m["kind"], kind),
+                         "%s called from %d threads right after process start returned %s, sequentially afterwards %s" % (
+                             call_str(m), nthreads, json.dumps(ga)[:160], json.dumps(seq[mi][1])[:160]),
+                         {"part": "stress-cold", "call": m, "seed": job["seed"]}))
+            break
+    if os.getcwd() != cwd0:
+        os.chdir(cwd0)
+        viol.append(("C12|stress|process|cwd-changed", "working directory changed during the cold-start run", {"part": "stress-cwd"}))
+    post = {m["doc"]: digest(snap(docs[(m["doc"], v)].d)) for m in menu}
+    if pre != post:
+        viol.append(("C12|stress|args|arg-mutated", "an argument dictionary changed during the cold-start run",
+                     {"part": "stress-args"}))
+    return {"viol": viol, "n": len(outs) + len(menu), "seqdig": seqdig, "stuck": stuck, "cpu": time.process_time() - c0,
+            "calls": [call_str(m) for m in menu]}
